@@ -480,6 +480,7 @@ Section Sound.
     let seen := sc_seen r in
     if negb (known seen) then PAsk
     else if has_info seen then PAllow
+    else if mem_str $"-X" seen && wfx (sc_idx r - 1) (tl tokens) then PAsk
     else if match sc_mode r with Some c => N.eqb c 99 | None => false end then PAsk
     else if mem_str $"-i" seen || mem_str $"-x" seen then PAsk
     else if match sc_mode r with Some c => N.eqb c 109 | None => false end then
@@ -492,6 +493,7 @@ Section Sound.
       | None => PAsk
       | Some tok =>
           if str_eqb tok dash then PAsk
+          else if shell_rewrites tok then PAsk
           else match resolve (pjoin cwd tok) with
                | None => PExn
                | Some p => if analyze p then PAllow else PAsk
@@ -513,6 +515,7 @@ Section Sound.
     destruct (has_info (sc_seen (scan 1 rs))) eqn:EI.
     { intros _. apply inert_sound. apply I1. reflexivity. }
     destruct (I2 eq_refl eq_refl) as [X|X]; [intros _; apply inert_sound; exact X|]. clear I1 I2.
+    destruct (mem_str $"-X" (sc_seen (scan 1 rs)) && wfx (sc_idx (scan 1 rs) - 1) (tl (t0 :: rs))); [discriminate|].
     unfold agrees in X. destruct (sc_mode (scan 1 rs)) as [c|].
     - destruct X as [a [EA X]].
       destruct (N.eqb_spec c 99) as [->|N99]; [discriminate|].
@@ -526,6 +529,7 @@ Section Sound.
       apply orb_false_iff in EIX as [Ei Ex].
       destruct (nth_error (t0 :: rs) (sc_idx (scan 1 rs))) as [tok|] eqn:EN; [|discriminate].
       destruct (str_eqb_spec tok dash) as [->|ND]; [discriminate|].
+      destruct (shell_rewrites tok) eqn:ESR; [discriminate|].
       destruct (resolve (pjoin cwd tok)) as [p|] eqn:ER; [|discriminate].
       destruct (analyze p) eqn:EA; [|discriminate]. intros _.
       assert (EN' : nth_error rs (sc_idx (scan 1 rs) - 1) = Some tok).
@@ -583,6 +587,16 @@ Section Sound.
       destruct r, m; cbn in H |- *; try discriminate; try reflexivity. injection H as ->. reflexivity.
   Qed.
 
+  (* _writes_files_xoption(tokens, end) reads tokens[1..end] only *)
+  Lemma wfx_firstn n : forall l l', firstn (S n) l = firstn (S n) l' -> wfx n l = wfx n l'.
+  Proof.
+    induction n as [|n IH]; intros l l' H; [destruct l, l'; reflexivity|].
+    destruct l as [|t r]; destruct l' as [|t' r']; try discriminate H; [reflexivity|].
+    cbn [firstn] in H. injection H as <- H. cbn [wfx]. rewrite (IH r r' H).
+    destruct r as [|a r0]; destruct r' as [|a' r0']; try discriminate H; [reflexivity|].
+    cbn [firstn] in H. injection H as <- _. reflexivity.
+  Qed.
+
   (* C17_args: with p the position where python's own options end (the script, or the argument of -c / -m),
      the decision is a function of tokens[0..p] *)
   Lemma args_tail cc pc tokens tokens' :
@@ -598,7 +612,8 @@ Section Sound.
       replace (sc_idx (scan 1 rs)) with (S (sc_idx (scan 1 rs) - 1)) in H by lia.
       pose proof (scan_firstn_n (length rs) rs m 1 ltac:(lia) H) as ES.
       destruct m as [|m0 m']; [subst rs; cbn in H; discriminate H|].
-      unfold rs. rewrite !classify_cons. fold rs. rewrite ES. unfold classify_body. rewrite <- HN. reflexivity.
+      unfold rs. rewrite !classify_cons. fold rs. rewrite ES. unfold classify_body. rewrite <- HN. cbn [tl].
+      rewrite (wfx_firstn _ _ _ H). reflexivity.
   Qed.
 
   (* ------------------------------------------------------------- which file *)
@@ -614,13 +629,14 @@ Section Sound.
      (sc_mode r = Some 109 /\ sc_arg r = Some $"calendar" /\ shadow (cwd_of cc pc) = false /\
       mem_str $"-i" (sc_seen r) = false) \/
      (sc_mode r = None /\ mem_str $"-i" (sc_seen r) = false /\ mem_str $"-x" (sc_seen r) = false /\
-      exists s p, nth_error tokens (sc_idx r) = Some s /\ s <> dash /\
+      exists s p, nth_error tokens (sc_idx r) = Some s /\ s <> dash /\ shell_rewrites s = false /\
                   resolve (pjoin (cwd_of cc pc) s) = Some p /\ analyze p = true)).
   Proof.
     cbn zeta. rewrite classify_cons. unfold classify_body. set (r := scan 1 (r0 :: rest)).
     destruct (known (sc_seen r)); [|discriminate]. cbn [negb]. intros H. split; [reflexivity|]. revert H.
     destruct (has_info (sc_seen r)) eqn:EI.
     { intros _. left. apply existsb_exists in EI as [o [Ho Hi]]. exists o. split; [exact Ho|]. apply mem_str_In. exact Hi. }
+    destruct (mem_str $"-X" (sc_seen r) && wfx (sc_idx r - 1) (tl (t0 :: r0 :: rest))) eqn:EXW; [discriminate|].
     destruct (sc_mode r) as [c|] eqn:EM.
     - destruct (N.eqb_spec c 99); [discriminate|].
       destruct (mem_str $"-i" (sc_seen r) || mem_str $"-x" (sc_seen r)) eqn:EIX; [discriminate|].
@@ -629,7 +645,7 @@ Section Sound.
       + destruct (sc_arg r) as [m|]; [|discriminate].
         destruct (str_eqb_spec m $"calendar") as [->|]; [|discriminate].
         destruct (shadow (cwd_of cc pc)); [discriminate|]. intros _. right. left. repeat split; assumption.
-      + destruct (str_eqb tok dash); [discriminate|]. destruct (resolve _) as [p|]; [|discriminate].
+      + destruct (str_eqb tok dash); [discriminate|]. destruct (shell_rewrites tok); [discriminate|]. destruct (resolve _) as [p|]; [|discriminate].
         (* a mode other than -c / -m does not exist; the scanner only returns c or m *)
         exfalso. assert (G : is_cm c = true) by (apply (scan_mode_n (length (r0 :: rest)) (r0 :: rest) 1 c); [lia|exact EM]).
         unfold is_cm in G. apply orb_true_iff in G as [G|G]; apply N.eqb_eq in G; congruence.
@@ -637,8 +653,18 @@ Section Sound.
       apply orb_false_iff in EIX as [Ei Ex].
       destruct (nth_error _ _) as [tok|] eqn:EN; [|discriminate].
       destruct (str_eqb_spec tok dash) as [->|ND]; [discriminate|].
+      destruct (shell_rewrites tok) eqn:ESR; [discriminate|].
       destruct (resolve _) as [p|] eqn:ER; [|discriminate]. destruct (analyze p) eqn:EA; [|discriminate].
       intros _. right. right. repeat split; try assumption. exists tok, p. repeat split; assumption.
+  Qed.
+  (* repair 6fb4634: no approval (other than a help / version query) with -X pycache_prefix / -X perf among python's own options *)
+  Lemma xoption_asks cc pc t0 r0 rest : let r := scan 1 (r0 :: rest) in
+    classify cc pc (t0 :: r0 :: rest) = PAllow -> has_info (sc_seen r) = false ->
+    mem_str $"-X" (sc_seen r) = true -> wfx (sc_idx r - 1) (r0 :: rest) = false.
+  Proof.
+    cbn zeta. rewrite classify_cons. unfold classify_body. cbn [tl]. set (r := scan 1 (r0 :: rest)).
+    destruct (known (sc_seen r)); [|discriminate]. cbn [negb]. intros H HI HX. rewrite HI, HX in H. cbn [andb] in H.
+    destruct (wfx (sc_idx r - 1) (r0 :: rest)); [discriminate|reflexivity].
   Qed.
 End Sound.
 
@@ -651,11 +677,12 @@ Proof.
   intros H. destruct tokens as [|t0 [|r0 rest]]; try reflexivity.
   rewrite !classify_cons. unfold classify_body. cbn [tl] in H.
   destruct (negb _); [reflexivity|]. destruct (has_info _); [reflexivity|].
+  destruct (mem_str _ _ && wfx _ _); [reflexivity|].
   destruct (match sc_mode _ with Some c => N.eqb c 99 | None => false end); [reflexivity|].
   destruct (_ || _); [reflexivity|].
   destruct (match sc_mode _ with Some c => N.eqb c 109 | None => false end); [reflexivity|].
   destruct (nth_error _ _) as [tok|] eqn:EN; [|reflexivity].
-  destruct (str_eqb tok dash); [reflexivity|].
+  destruct (str_eqb tok dash); [reflexivity|]. destruct (shell_rewrites tok); [reflexivity|].
   destruct (resolve _) as [p|] eqn:ER; [|reflexivity]. rewrite (H tok p eq_refl ER). reflexivity.
 Qed.
 
@@ -663,8 +690,8 @@ Qed.
 Lemma file_relative resolve analyze shadow cwd pc tokens s :
   let r := scan 1 (tl tokens) in
   (2 <= length tokens)%nat -> known (sc_seen r) = true -> has_info (sc_seen r) = false -> sc_mode r = None ->
-  mem_str $"-i" (sc_seen r) = false -> mem_str $"-x" (sc_seen r) = false ->
-  nth_error tokens (sc_idx r) = Some s -> s <> dash -> is_abs s = false -> suffixb [47] cwd = false ->
+  mem_str $"-i" (sc_seen r) = false -> mem_str $"-x" (sc_seen r) = false -> mem_str $"-X" (sc_seen r) = false ->
+  nth_error tokens (sc_idx r) = Some s -> s <> dash -> shell_rewrites s = false -> is_abs s = false -> suffixb [47] cwd = false ->
   classify resolve analyze shadow (Some cwd) pc tokens =
   match resolve (cwd ++ [47] ++ s) with
   | None => PExn
@@ -672,8 +699,8 @@ Lemma file_relative resolve analyze shadow cwd pc tokens s :
   end.
 Proof.
   cbn zeta. destruct tokens as [|t0 [|r0 rest]]; cbn [length]; try lia. intros _. cbn [tl].
-  intros HK HI HM Hi Hx HN HD HA HS. rewrite classify_cons. unfold classify_body, cwd_of, pjoin.
-  rewrite HK, HI, HM, Hi, Hx, HN, HA, HS. cbn [negb orb].
+  intros HK HI HM Hi Hx HX HN HD HR HA HS. rewrite classify_cons. unfold classify_body, cwd_of, pjoin.
+  rewrite HK, HI, HM, Hi, Hx, HX, HN, HR, HA, HS. cbn [negb orb andb].
   destruct (str_eqb_spec s dash); [contradiction|]. reflexivity.
 Qed.
 
